@@ -190,7 +190,20 @@ class OptimizerGeneric:
                                        bounds=bounds,
                                        options=options,
                                        tol=tol)
+        self._apply(result.x)  # leave the lens at the returned solution
         return result
+
+    def _apply(self, x):
+        """
+        Put the lens in the state of the solution vector x: update every
+        variable and then the optics (pickups and solves).
+
+        Args:
+            x (array-like): The values of the variables.
+        """
+        for idvar, var in enumerate(self.problem.variables):
+            var.update(x[idvar])
+        self.problem.update_optics()
 
     def undo(self):
         """
@@ -282,6 +295,7 @@ class LeastSquares(OptimizerGeneric):
                                             max_nfev=maxiter,
                                             verbose=verbose,
                                             ftol=tol)
+        self._apply(result.x)  # leave the lens at the returned solution
         return result
 
 
@@ -324,6 +338,7 @@ class DualAnnealing(OptimizerGeneric):
                                              bounds=bounds,
                                              maxiter=maxiter,
                                              x0=x0)
+        self._apply(result.x)  # leave the lens at the returned solution
         return result
 
 
@@ -386,4 +401,5 @@ class DifferentialEvolution(OptimizerGeneric):
                                                      disp=disp,
                                                      updating=updating,
                                                      workers=workers)
+        self._apply(result.x)  # leave the lens at the returned solution
         return result
